@@ -276,7 +276,6 @@ func deadlineConst(v ssa.Value) (string, bool) {
 	return strings.TrimSpace(desc), okAll
 }
 
-
 // readerDoneFields: the channel fields that readLoop closes by a defer in its entry block and nobody else closes.
 func readerDoneFields(c *Ctx, rl *ssa.Function) map[string]bool {
 	done := map[string]bool{}
@@ -335,55 +334,7 @@ func checkErrorExitWaitsForReader(c *Ctx) {
 			c.anchorMissing("write of the query in " + funcName(ex))
 			continue
 		}
-		// observation points: a blocking select all of whose cases watch the reader's exit or a context; in a select
-		// that also has other cases (the reply wait), the body of such a case
-		obs := map[ssa.Instruction]bool{}
-		accept := func(st *ssa.SelectState) bool {
-			if st.Dir != types.RecvOnly {
-				return false
-			}
-			if k, ok := loadedField(st.Chan); ok && done[k] {
-				return true
-			}
-			if cl, ok := st.Chan.(*ssa.Call); ok && cl.Call.IsInvoke() && cl.Call.Method.Name() == "Done" {
-				return true
-			}
-			return false
-		}
-		eachInstr(ex, func(in ssa.Instruction) {
-			sel, ok := in.(*ssa.Select)
-			if !ok || !sel.Blocking {
-				return
-			}
-			all := true
-			for _, st := range sel.States {
-				if !accept(st) {
-					all = false
-				}
-			}
-			if all {
-				obs[in] = true
-				return
-			}
-			cases, _, okD := decodeSelect(sel)
-			if !okD {
-				return
-			}
-			for _, cs := range cases {
-				if cs.Body == nil || !accept(cs.State) || len(cs.Body.Preds) != 1 || len(cs.Body.Instrs) == 0 {
-					continue
-				}
-				shared := false
-				for _, o := range cases {
-					if o.Idx != cs.Idx && o.Body == cs.Body {
-						shared = true
-					}
-				}
-				if !shared {
-					obs[cs.Body.Instrs[0]] = true
-				}
-			}
-		})
+		obs := readerExitObservations(ex, done, true)
 		watches := func(x ssa.Instruction) bool { return obs[x] }
 		bad := ""
 		n := 0
@@ -873,4 +824,518 @@ func dumpWriterMsgLimit(pack *ssa.Call) int64 {
 		}
 	})
 	return wlimit
+}
+
+// checkReuseQueryBufferPerAttempt (R9-C01-1, R9-C17-1; C01-R12, C17-R8): reusableConn.exchange reads the caller's id
+// out of the buffer it is given and then overwrites it with the connection's wire id, so the buffer must be private to
+// the attempt: every call of that exchange gets a buffer made by copyMsgWithLenHdr, and when the call sits in a (retry)
+// loop the copy is made inside the same loop iteration.  A copy hoisted out of the retry loop makes the second attempt
+// read the first attempt's wire id as "the caller's id" and restore that into the reply.
+func checkReuseQueryBufferPerAttempt(c *Ctx) {
+	ex := c.fn(relTransport, "reusableConn", "exchange")
+	if ex == nil {
+		return
+	}
+	n := 0
+	for _, f := range c.P.funcsIn(relTransport) {
+		fn := f
+		eachInstr(f, func(in ssa.Instruction) {
+			cl, ok := in.(*ssa.Call)
+			if !ok || staticCallee(cl) != ex || len(cl.Call.Args) < 3 {
+				return
+			}
+			n++
+			c.see(fn)
+			key := "reuse-query-buffer-per-attempt@" + funcName(fn)
+			tr := c.P.newTracer()
+			tr.throughCalls, tr.throughFields, tr.throughParams = false, false, false
+			why := ""
+			os := tr.origins(cl.Call.Args[2])
+			if len(os) == 0 {
+				why = "the query buffer has no traceable origin"
+			}
+			lh := innermostLoopHeader(cl.Block())
+			for _, o := range os {
+				var mk *ssa.Call
+				switch x := o.(type) {
+				case *ssa.Extract:
+					mk, _ = x.Tuple.(*ssa.Call)
+				case *ssa.Call:
+					mk = x
+				}
+				if mk == nil || callName(mk) != relTransport+".copyMsgWithLenHdr" {
+					why = "the buffer handed to the connection is " + exprStr(o) + ", not a fresh copyMsgWithLenHdr copy: the connection writes its wire id into it"
+					continue
+				}
+				if lh != nil && !lh.Dominates(mk.Block()) {
+					why = "the copy is made once, outside the retry loop that hands it to a connection: a retry reads the previous attempt's wire id as the caller's id and returns the reply with that id"
+				}
+			}
+			c.check(why == "", key, instrPos(in), "each attempt gets its own copyMsgWithLenHdr copy", why)
+		})
+	}
+	if n == 0 {
+		c.anchorMissing("call of reusableConn.exchange")
+	}
+}
+
+// checkQuestionSnapshotBeforeChain (R9-C04-2; C03-R8, C04-R3): the question that answersQuestion compares the response
+// with is a *value* taken before the rest of the chain ran (later plugins rewrite q.Question[0] in place): its origin is
+// a load of the query's question or a QQuestion() call that no ExecNext call of the same function can precede, or a
+// value captured from the enclosing function.
+func checkQuestionSnapshotBeforeChain(c *Ctx) {
+	aq := c.P.Func(relCachePlugin, "", "answersQuestion")
+	if aq == nil {
+		return
+	}
+	for _, f := range c.P.funcsIn(relCachePlugin) {
+		fn := f
+		var chainCalls []ssa.Instruction
+		eachInstr(f, func(in ssa.Instruction) {
+			if cl, ok := in.(*ssa.Call); ok {
+				if cl.Call.IsInvoke() && cl.Call.Method.Name() == "ExecNext" {
+					chainCalls = append(chainCalls, in)
+				} else if sc := staticCallee(cl); sc != nil && sc.Name() == "ExecNext" {
+					chainCalls = append(chainCalls, in)
+				}
+			}
+		})
+		eachInstr(f, func(in ssa.Instruction) {
+			cl, ok := in.(*ssa.Call)
+			if !ok || staticCallee(cl) != aq || len(cl.Call.Args) != 2 {
+				return
+			}
+			key := "question-snapshot-before-chain@" + funcName(fn)
+			tr := c.P.newTracer()
+			tr.throughCalls, tr.throughFields, tr.throughParams = false, false, false
+			why := ""
+			os := tr.origins(cl.Call.Args[1])
+			if len(os) == 0 {
+				why = "the compared question has no traceable origin"
+			}
+			for _, o := range os {
+				oi, isInstr := o.(ssa.Instruction)
+				if !isInstr {
+					continue // parameter / free variable: bound before this function runs
+				}
+				if oi.Parent() != fn {
+					continue // taken in the enclosing function, before the closure was started
+				}
+				switch x := o.(type) {
+				case *ssa.UnOp: // load of q.Question[0]
+					_ = x
+				case *ssa.Call:
+					if !strings.HasSuffix(callName(x), ".Context).QQuestion") {
+						why = "the compared question comes from " + exprStr(o)
+					}
+				default:
+					why = "the compared question comes from " + exprStr(o)
+				}
+				for _, cc := range chainCalls {
+					if _, after := reachAvoiding(cc, func(y ssa.Instruction) bool { return y == oi }, nil); after {
+						why = "the question is read at " + c.P.pos(instrPos(oi)) + ", after the rest of the chain ran: a plugin that rewrote the query's name or type in place makes the answer to the rewritten question pass the test, and it is stored under the original question's key"
+					}
+				}
+			}
+			c.check(why == "", key, instrPos(in), "the compared question is a value taken before the chain ran", why)
+		})
+	}
+}
+
+// checkFinalDumpSeesLiveBackend (R9-C19-2; C19-R11): the shutdown dump ranges over the backend, so if closing the
+// backend empties it (Close reaches a Flush of the map), the plugin's Close must dump before it closes the backend.
+// Either half alone is harmless and is not reported.
+func checkFinalDumpSeesLiveBackend(c *Ctx) {
+	cl := c.fn(relCachePlugin, "Cache", "Close")
+	if cl == nil {
+		return
+	}
+	var bclose, dump ssa.Instruction
+	var bcloseFn *ssa.Function
+	eachInstr(cl, func(in ssa.Instruction) {
+		ci, ok := in.(*ssa.Call)
+		if !ok {
+			return
+		}
+		sc := staticCallee(ci)
+		if sc == nil {
+			return
+		}
+		if sc.Name() == "dumpCache" {
+			dump = in
+		}
+		if sc.Name() == "Close" && strings.Contains(sc.String(), "pkg/cache.Cache") {
+			bclose, bcloseFn = in, sc
+		}
+	})
+	if bclose == nil || dump == nil {
+		c.anchorMissing("backend.Close / dumpCache calls in the cache plugin's Close")
+		return
+	}
+	// does closing the backend empty it?
+	empties := ""
+	seen := map[*ssa.Function]bool{}
+	var visit func(g *ssa.Function, d int)
+	visit = func(g *ssa.Function, d int) {
+		if g == nil || seen[g] || d > 3 || !inMosdns(g) {
+			return
+		}
+		seen[g] = true
+		eachInstr(g, func(in ssa.Instruction) {
+			ci, ok := in.(ssa.CallInstruction)
+			if !ok {
+				return
+			}
+			if _, isGo := in.(*ssa.Go); isGo {
+				return
+			}
+			sc := staticCallee(ci)
+			if sc == nil {
+				return
+			}
+			if sc.Name() == "Flush" || sc.Name() == "flush" {
+				empties = funcName(sc)
+			}
+			visit(sc, d+1)
+		})
+		// clearing the map in place
+		eachInstr(g, func(in ssa.Instruction) {
+			if ci, ok := in.(*ssa.Call); ok && callName(ci) == "builtin:clear" {
+				empties = funcName(g)
+			}
+		})
+	}
+	visit(bcloseFn, 0)
+	c.see(cl, bcloseFn)
+	_, closeFirst := reachAvoiding(bclose, func(y ssa.Instruction) bool { return y == dump }, nil)
+	c.check(!(empties != "" && closeFirst), "final-dump-sees-live-backend", instrPos(dump), "the shutdown dump ranges over a backend that still holds its entries",
+		"the plugin closes the backend before the shutdown dump, and closing the backend empties it ("+empties+"): the final dump overwrites the dump file with a well-formed dump of zero entries, the next start loads nothing")
+}
+
+// checkNoSynchronousDetachedExchange (R9-C14-1; C14-R4): forward queries its upstreams under a context of its own
+// (Background + 5 s, so that connection reuse survives the caller) — which is only sound in a helper goroutine whose
+// caller waits in a select on its own context.  Every upstream ExchangeContext call in the forward package is therefore
+// either inside a function started by `go`, or runs under a context that is its function's own context parameter.
+// (A synchronous fast path under a detached context outlives the caller's context by up to the upstream timeout and
+// reports the upstream's error instead of the context's.)
+func checkNoSynchronousDetachedExchange(c *Ctx, rel string) {
+	goTargets := map[*ssa.Function]bool{}
+	var all []*ssa.Function
+	for _, f := range c.P.funcsIn(rel) {
+		all = append(all, f)
+	}
+	for _, f := range all {
+		eachInstrDeep(f, func(g *ssa.Function, in ssa.Instruction) {
+			gi, ok := in.(*ssa.Go)
+			if !ok {
+				return
+			}
+			switch v := gi.Call.Value.(type) {
+			case *ssa.MakeClosure:
+				if fn, ok := v.Fn.(*ssa.Function); ok {
+					goTargets[fn] = true
+				}
+			case *ssa.Function:
+				goTargets[v] = true
+			}
+		})
+	}
+	n := 0
+	seen := map[ssa.Instruction]bool{}
+	for _, f := range all {
+		eachInstrDeep(f, func(g *ssa.Function, in ssa.Instruction) {
+			cl, ok := in.(*ssa.Call)
+			if !ok || seen[in] {
+				return
+			}
+			var ctxArg ssa.Value
+			if cl.Call.IsInvoke() && cl.Call.Method.Name() == "ExchangeContext" && len(cl.Call.Args) >= 1 {
+				ctxArg = cl.Call.Args[0]
+			} else if sc := staticCallee(cl); sc != nil && sc.Name() == "ExchangeContext" && sc.Signature.Recv() != nil && len(cl.Call.Args) >= 2 {
+				ctxArg = cl.Call.Args[1]
+			} else {
+				return
+			}
+			seen[in] = true
+			n++
+			c.see(g)
+			key := "upstream-call-detached-only-in-goroutine@" + funcName(g)
+			if goTargets[g] {
+				c.ok(key, instrPos(in), "the exchange runs in a helper goroutine")
+				return
+			}
+			own := false
+			for _, prm := range g.Params {
+				if prm.Type().String() == "context.Context" && isParamValue(c.P, ctxArg, prm) {
+					own = true
+				}
+			}
+			c.check(own, key, instrPos(in), "a synchronous exchange runs under its function's own context",
+				"an upstream is queried synchronously under a context that is not the calling function's own ("+exprStr(ctxArg)+"): the call does not end when the caller's context ends — with a slow or silent upstream it returns after the upstream timeout, with the upstream's error instead of the context's")
+		})
+	}
+	if n == 0 {
+		c.anchorMissing("upstream ExchangeContext call in " + rel)
+	}
+}
+
+// readerExitObservations: the points of ex at which it is known that the reader has returned (a channel in `done`) —
+// or, with ctxToo, that a context ended: a blocking select all of whose cases watch such a channel; in a select that
+// also has other cases (the reply wait), the first instruction of the body of such a case.
+func readerExitObservations(ex *ssa.Function, done map[string]bool, ctxToo bool) map[ssa.Instruction]bool {
+	// observation points: a blocking select all of whose cases watch the reader's exit or a context; in a select
+	// that also has other cases (the reply wait), the body of such a case
+	obs := map[ssa.Instruction]bool{}
+	accept := func(st *ssa.SelectState) bool {
+		if st.Dir != types.RecvOnly {
+			return false
+		}
+		if k, ok := loadedField(st.Chan); ok && done[k] {
+			return true
+		}
+		if cl, ok := st.Chan.(*ssa.Call); ok && cl.Call.IsInvoke() && cl.Call.Method.Name() == "Done" {
+			return true
+		}
+		return false
+	}
+	eachInstr(ex, func(in ssa.Instruction) {
+		sel, ok := in.(*ssa.Select)
+		if !ok || !sel.Blocking {
+			return
+		}
+		all := true
+		for _, st := range sel.States {
+			if !accept(st) {
+				all = false
+			}
+		}
+		if all {
+			obs[in] = true
+			return
+		}
+		cases, _, okD := decodeSelect(sel)
+		if !okD {
+			return
+		}
+		for _, cs := range cases {
+			if cs.Body == nil || !accept(cs.State) || len(cs.Body.Preds) != 1 || len(cs.Body.Instrs) == 0 {
+				continue
+			}
+			shared := false
+			for _, o := range cases {
+				if o.Idx != cs.Idx && o.Body == cs.Body {
+					shared = true
+				}
+			}
+			if !shared {
+				obs[cs.Body.Instrs[0]] = true
+			}
+		}
+	})
+	return obs
+}
+
+// asyncCloseObserved: `go conn.CloseWithErr(err)` in an exchange function counts as closing the connection when every
+// path from it to an exit first sees the reader's exit (the reader returns only after the close has completed, closed
+// flag included) or the end of a context (no retry follows an ended context).
+func asyncCloseObserved(c *Ctx, g *ssa.Go) bool {
+	fn := g.Parent()
+	if fn == nil || fn.Signature.Recv() == nil {
+		return false
+	}
+	recv := fn.Signature.Recv().Type().String()
+	for _, an := range []string{"TraditionalDnsConn", "reusableConn"} {
+		if !strings.HasSuffix(recv, "."+an) {
+			continue
+		}
+		rl := c.P.Func(relTransport, an, "readLoop")
+		if rl == nil || len(rl.Blocks) == 0 {
+			return false
+		}
+		obs := readerExitObservations(fn, readerDoneFields(c, rl), true)
+		_, leak := reachAvoiding(g, isExit, func(x ssa.Instruction) bool { return obs[x] })
+		return !leak
+	}
+	return false
+}
+
+// checkCtxCasePollsResult (D46, D47; C02-R14): the exchanges that run their I/O in a helper goroutine (DoQ stream, DoH
+// request) wait in a select on {ctx.Done(), result channel}; when both are ready Go picks at random, so the Done case
+// must look into the result channel (non-blocking) before it reports the context's error — otherwise about half of the
+// replies that were completely read before the deadline are dropped.
+func checkCtxCasePollsResult(c *Ctx) {
+	type target struct{ rel, recv, name string }
+	for _, t := range []target{{relTransport, "quicReservedExchanger", "ExchangeReserved"}, {relDoh, "Upstream", "ExchangeContext"}} {
+		fn := c.fn(t.rel, t.recv, t.name)
+		if fn == nil {
+			continue
+		}
+		c.see(fn)
+		key := "ctx-case-polls-result@" + funcName(fn)
+		n := 0
+		why := ""
+		eachInstr(fn, func(in ssa.Instruction) {
+			sel, ok := in.(*ssa.Select)
+			if !ok || !sel.Blocking {
+				return
+			}
+			var resultChans []ssa.Value
+			hasDone := false
+			for _, st := range sel.States {
+				if st.Dir != types.RecvOnly {
+					continue
+				}
+				if cl, ok := st.Chan.(*ssa.Call); ok && cl.Call.IsInvoke() && cl.Call.Method.Name() == "Done" {
+					hasDone = true
+					continue
+				}
+				resultChans = append(resultChans, st.Chan)
+			}
+			if !hasDone || len(resultChans) == 0 {
+				return
+			}
+			n++
+			cases, _, okD := decodeSelect(sel)
+			if !okD {
+				why = "the wait cannot be decoded"
+				return
+			}
+			isPoll := func(x ssa.Instruction) bool {
+				s2, ok := x.(*ssa.Select)
+				if !ok || s2.Blocking {
+					return false
+				}
+				for _, st := range s2.States {
+					if st.Dir != types.RecvOnly {
+						continue
+					}
+					for _, rc := range resultChans {
+						if st.Chan == rc || chanID(st.Chan) == chanID(rc) {
+							return true
+						}
+					}
+				}
+				return false
+			}
+			for _, cs := range cases {
+				cl, ok := cs.State.Chan.(*ssa.Call)
+				if !ok || !cl.Call.IsInvoke() || cl.Call.Method.Name() != "Done" || cs.Body == nil {
+					continue
+				}
+				if _, leak := reachFromBlock(cs.Body, isExit, isPoll); leak {
+					why = "the ctx.Done() case of the wait at " + c.P.pos(instrPos(sel)) + " returns without looking into the result channel"
+				}
+			}
+		})
+		c.check(why == "" && n > 0, key, fn.Pos(), "the ctx.Done() case polls the result channel before it gives up",
+			why+": when the reply was completely read before the caller's deadline and the caller reaches its select afterwards, both cases are ready and about half of such exchanges return the context error although the reply arrived in time (D46 / D47)")
+	}
+}
+
+// checkServerUnpackChecksCounts (D48; C03-R1): dns.Msg.Unpack silently corrects header counts that promise more records
+// than the message carries, so the entry handler's "no answer/authority record, at most one additional record" test
+// never sees them.  In the server packages every query is unpacked by a function whose success return is guarded by the
+// comparison of all four header counts with the unpacked sections; nothing else there calls Unpack or the plain
+// stream reader.
+func checkServerUnpackChecksCounts(c *Ctx) {
+	const unpack = "(*github.com/miekg/dns.Msg).Unpack"
+	secOffset := map[string]int64{"Question": 4, "Answer": 6, "Ns": 8, "Extra": 10}
+	var checked []*ssa.Function
+	n := 0
+	for _, rel := range []string{"pkg/server"} {
+		for _, f := range c.P.funcsIn(rel) {
+			fn := f
+			eachInstr(f, func(in ssa.Instruction) {
+				cl, ok := in.(*ssa.Call)
+				if !ok {
+					return
+				}
+				cn := callName(cl)
+				if strings.HasSuffix(cn, "dnsutils.ReadMsgFromTCP") {
+					n++
+					c.fail("server-unpack-checks-counts@"+funcName(fn), instrPos(in), "the server reads a query with dnsutils.ReadMsgFromTCP, which does not compare the header's section counts with the message: a query announcing records it does not carry (ANCOUNT=1, ARCOUNT=2 ...) is answered instead of dropped as malformed (D48)")
+					return
+				}
+				if cn != unpack || len(cl.Call.Args) != 2 {
+					return
+				}
+				n++
+				c.see(fn)
+				key := "server-unpack-checks-counts@" + funcName(fn)
+				raw := cl.Call.Args[1]
+				msg := cl.Call.Args[0]
+				missing := ""
+				nRet := 0
+				for _, r := range returnsOf(fn) {
+					rv := returnedValues(r)
+					if len(rv) == 0 || !isNilConst(rv[len(rv)-1]) || rv[len(rv)-1].Type().String() != "error" {
+						continue
+					}
+					nRet++
+					for sec, off := range secOffset {
+						found := false
+						for _, g := range guardsOfInstr(r) {
+							cm, ok := g.asCmp()
+							if !ok || cm.Op != token.EQL {
+								continue
+							}
+							for _, pr := range [][2]ssa.Value{{cm.X, cm.Y}, {cm.Y, cm.X}} {
+								if isHeaderCount(pr[0], raw, off) && isLenOfSection(pr[1], msg, sec) {
+									found = true
+								}
+							}
+						}
+						if !found {
+							missing = sec
+						}
+					}
+				}
+				if nRet == 0 {
+					missing = "success return"
+				}
+				c.check(missing == "", key, instrPos(in), "a query is accepted only when the four header counts equal the unpacked section lengths",
+					"the unpacked query is accepted without comparing the header count of "+missing+" with the unpacked section: dns.Msg.Unpack corrects counts silently, so a query that announces records it does not carry passes the handler's malformed-query test and is answered (D48)")
+				checked = append(checked, fn)
+			})
+		}
+	}
+	if n == 0 {
+		c.anchorMissing("query unpack in pkg/server")
+	}
+}
+
+func isHeaderCount(v, raw ssa.Value, off int64) bool {
+	for {
+		if cv, ok := v.(*ssa.Convert); ok {
+			v = cv.X
+			continue
+		}
+		break
+	}
+	cl, ok := v.(*ssa.Call)
+	if !ok || callName(cl) != "(encoding/binary.bigEndian).Uint16" || len(cl.Call.Args) != 2 {
+		return false
+	}
+	sl, ok := cl.Call.Args[1].(*ssa.Slice)
+	if !ok || sl.X != raw {
+		return false
+	}
+	lo, ok := constInt(sl.Low)
+	return ok && lo == off
+}
+
+func isLenOfSection(v, msg ssa.Value, sec string) bool {
+	cl, ok := v.(*ssa.Call)
+	if !ok || callName(cl) != "builtin:len" {
+		return false
+	}
+	k, ok := loadedField(cl.Call.Args[0])
+	if !ok || k != "github.com/miekg/dns.Msg."+sec {
+		return false
+	}
+	ld, ok := cl.Call.Args[0].(*ssa.UnOp)
+	if !ok {
+		return false
+	}
+	return fieldBase(ld.X) == msg
 }
